@@ -171,6 +171,7 @@ func (c *wsConn) nextMessage() {
 	case <-handoffTimeout:
 		c.errLk.Lock()
 		c.incomingErr = errors.New("connection loop did not take a message within the timeout")
+		vhook("reader.err", c)
 		c.errLk.Unlock()
 		_ = conn.Close()
 		close(c.incoming)
